@@ -387,9 +387,25 @@ Record build_case := {
   b_listed : list (string * string);
   b_locked_ok : bool; b_plain_ok : bool;
   b_locked_installed : list (string * string); b_plain_installed : list (string * string);
-  b_locked_manifest : string; b_plain_manifest : string
+  b_locked_manifest : string; b_plain_manifest : string;
+  b_locked_scripts : list string; b_plain_scripts : list string   (* members of lib/apk/db/scripts.tar: name mode mtime content-hash *)
 }.
-Inductive cli_case := CLock (l : lockfile_case) | CBuild (b : build_case).
+(* wave 3: a lock file that outlives its configuration.  `apko lock apko.yaml`; builds with --lockfile that name the configuration by
+   several spellings of the same file, before and after the configuration is edited without locking again (spelling, succeeded, installed) *)
+Record stale_case := {
+  sl_locked : bool; sl_listed : list (string * string);
+  sl_plain_ok : bool; sl_plain_installed : list (string * string);     (* the unlocked build of the EDITED configuration *)
+  sl_fresh : list (string * bool * list (string * string));
+  sl_stale : list (string * bool * list (string * string))
+}.
+(* wave 3: an image on top of a base image, locked and built from the lock: (name, version, checksum) *)
+Record base_case := {
+  ba_locked : bool; ba_built : bool;
+  ba_listed : list (string * string * string);
+  ba_installed : list (string * string * string);
+  ba_base : list (string * string * string)
+}.
+Inductive cli_case := CLock (l : lockfile_case) | CBuild (b : build_case) | CStale (s : stale_case) | CBase (b : base_case).
 
 Definition section_eqb (a b : section) : bool :=
   String.eqb (s_range a) (s_range b) && String.eqb (s_checksum a) (s_checksum b).
@@ -481,9 +497,35 @@ Definition check_build (b : build_case) : list string :=
                    negb (list_eqb nv_eqb (b_locked_installed b) (b_plain_installed b))
                 then "viol:locked-image-differs/same-packages-other-install-order"
                 else "viol:locked-image-differs-from-unlocked") ++
-        tag_if (negb (same_members_b (b_locked_installed b) (b_plain_installed b))) "viol:locked-build-installs-other-than-unlocked"
+        tag_if (negb (same_members_b (b_locked_installed b) (b_plain_installed b))) "viol:locked-build-installs-other-than-unlocked" ++
+        (* the install scripts kept in lib/apk/db/scripts.tar: same members (name, mode, mtime, content) whatever the install order *)
+        tag_if (same_members_b (b_locked_installed b) (b_plain_installed b) &&
+                negb (set_eqb (b_locked_scripts b) (b_plain_scripts b))) "viol:locked-image-differs/scripts-tar-members"
       else [])
    else []).
 
+(* the stale-lock guard (buildImage, Lockfile branch): a lock emitted for an earlier state of the configuration lists the package set
+   of that state.  Before the edit every spelling of the configuration's path builds and installs the listed set; after the edit a
+   build from the lock is refused - or installs what the edited configuration resolves to - under EVERY spelling *)
+Definition check_stale (c : stale_case) : list string :=
+  if negb (sl_locked c) then ["viol:apko-lock-fails-on-a-resolvable-configuration"] else
+  List.concat (List.map (fun r : string * bool * list (string * string) => let '(sp, ok, inst) := r in
+     if ok then tag_if (negb (same_members_b inst (sl_listed c))) "viol:locked-build-installs-other-than-listed"
+     else ["viol:locked-build-fails/configuration-named-by-another-spelling"]) (sl_fresh c)) ++
+  List.concat (List.map (fun r : string * bool * list (string * string) => let '(sp, ok, inst) := r in
+     tag_if (ok && negb (sl_plain_ok c && same_members_b inst (sl_plain_installed c)))
+            "viol:stale-lock-accepted-after-configuration-edit") (sl_stale c)).
+
+(* on top of a base image: what the lock lists is what the build from it adds to the base image, each in the listed build *)
+Definition nvc_eqb (a b : string * string * string) : bool :=
+  String.eqb (fst (fst a)) (fst (fst b)) && String.eqb (snd (fst a)) (snd (fst b)) && String.eqb (snd a) (snd b).
+Definition check_base (c : base_case) : list string :=
+  if negb (ba_locked c) then ["viol:apko-lock-fails-on-a-resolvable-configuration"] else
+  if negb (ba_built c) then ["viol:locked-build-fails"] else
+  tag_if (negb (forallb (fun l => existsb (nvc_eqb l) (ba_installed c)) (ba_listed c)))
+         "viol:locked-build-has-another-build-of-a-listed-package" ++
+  tag_if (negb (forallb (fun i => existsb (nvc_eqb i) (ba_listed c) || existsb (nvc_eqb i) (ba_base c)) (ba_installed c)))
+         "viol:locked-build-on-base-installs-other-than-listed".
+
 Definition check_cli (c : cli_case) : list string :=
-  match c with CLock l => check_lockfile l | CBuild b => check_build b end.
+  match c with CLock l => check_lockfile l | CBuild b => check_build b | CStale s => check_stale s | CBase b => check_base b end.
